@@ -39,9 +39,9 @@ def _swap_rows_both_arrays(sc):
     return True
 
 
-def _run_check(pid, sc):
+def _run_check(pid, sc, tier='quick'):
     env = dict(os.environ, VERIF_REPO=sc)
-    q = subprocess.run([os.path.join(VERIF, 'check'), pid, '--no-evidence', '--tier', 'quick'], env=env,
+    q = subprocess.run([os.path.join(VERIF, 'check'), pid, '--no-evidence', '--tier', tier], env=env,
                        stdout=subprocess.PIPE, stderr=subprocess.STDOUT, text=True)
     inst = re.findall(r'^\s+instance: (.*)$', q.stdout, re.M)
     return q.returncode, inst, q.stdout
@@ -99,7 +99,8 @@ def run(pid, seed=0):
                 applied = _apply_text(sc, rel, old, new)
             if not applied:
                 return dict(id=iid, kind=kind, status='skipped', why='the text/patch no longer applies to the current tree')
-            rc, inst, out = _run_check(pid, sc)
+            # ids starting with 'mv' only exist in a non-default build variant: the thorough tier's variant runs see them
+            rc, inst, out = _run_check(pid, sc, 'thorough' if iid.startswith('mv') else 'quick')
             if kind == 'benign':
                 ok = rc == 0
                 return dict(id=iid, kind=kind, status='silent' if ok else 'FALSE-ALARM', exit=rc, instances=inst[:4])
